@@ -91,6 +91,17 @@ impl<T: Qcow2IoOps> Qcow2Dev<T> {
             return Ok(());
         }
 
+        // With a backing image, an all-zero L2 entry means "read from the
+        // backing image", so clearing the entry would expose stale backing
+        // data instead of zeros. The zero flag (qcow2 v3) keeps the discarded
+        // cluster reading as zero; v2 has no zero flag, so the cluster stays
+        // mapped there and is only zeroed.
+        let zero_flag_ok = if info.has_back_file() {
+            Some(self.header.read().await.version() >= 3)
+        } else {
+            None
+        };
+
         let l2_handle = self.get_l2_slice(&split).await?;
         let mut l2_table = l2_handle.value().write().await;
 
@@ -108,9 +119,23 @@ impl<T: Qcow2IoOps> Qcow2Dev<T> {
             return Ok(());
         };
 
-        // Clear the L2 entry to all zeros (unallocated state, reads-as-zero).
+        if zero_flag_ok == Some(false) {
+            if entry.is_zero() {
+                // already reads as zero, leave the preallocation alone
+                return Ok(());
+            }
+            drop(l2_table);
+            let punch_len = host_count * info.cluster_size();
+            return self
+                .call_fallocate(host_cluster, punch_len, Qcow2OpsFlags::FALLOCATE_ZERO_RANGE)
+                .await;
+        }
+
+        // Clear the L2 entry: all zeros (unallocated state, reads-as-zero), or
+        // the bare zero flag if unallocated would fall through to a backing image.
         let idx = split.l2_slice_index(info);
-        l2_table.set(idx, L2Entry(0));
+        let cleared = if zero_flag_ok.is_some() { 1 } else { 0 };
+        l2_table.set(idx, L2Entry(cleared));
         l2_handle.set_dirty(true);
         self.mark_need_flush(true);
         drop(l2_table);
